@@ -232,3 +232,313 @@ pub fn pop_lo<T: Q, const N: usize>(pre: Pre, tables: Tables, g: Grp) {
     }
     post(&mut q, &want, g);
 }
+
+/// the raw tables are exactly those of the ghost pre-state (nothing moved)
+pub fn assert_tables_unchanged<T: Q, const N: usize>(q: &T, gh: &Ghost<N>) {
+    assert!(q.s_heap_len() == N, "SAME: heap length unchanged");
+    assert!(q.s_qp_len() == N, "SAME: qp length unchanged");
+    assert!(q.s_map_len() == N, "SAME: map length unchanged");
+    let mut s = 0;
+    while s < N {
+        assert!(q.s_heap(s) == Some(gh.heap[s]), "SAME: heap table unchanged");
+        assert!(q.s_qp(s) == Some(gh.qp[s]), "SAME: qp table unchanged");
+        let (i, p) = q.s_slot(s).unwrap();
+        assert!(
+            i.key == gh.key[s] && i.pay == gh.pay[s] && p.0 == gh.prio[s],
+            "SAME: slot contents unchanged"
+        );
+        s += 1;
+    }
+}
+
+// ------------------------------------------------------------------------------------
+// push_increase / push_decrease (C11)
+// ------------------------------------------------------------------------------------
+pub fn push_dir<T: Q, const N: usize>(pre: Pre, tables: Tables, g: Grp, increase: bool) {
+    let (mut q, gh, mut want) = pre_state::<T, N>(pre, tables);
+    let k = sym::below(KEYS);
+    let pay = sym::u8();
+    let p = sym::u8();
+    let old = want.get(k);
+    let r = if increase {
+        q.push_increase(Item::new(k, pay), Pr(p))
+    } else {
+        q.push_decrease(Item::new(k, pay), Pr(p))
+    };
+    let r = r.map(|x| x.0);
+    match old {
+        None => {
+            if g.model {
+                assert!(r.is_none(), "RET: push_increase/decrease of an absent item returns None");
+            }
+            want.set(k, pay, p);
+        }
+        Some((opay, oprio)) => {
+            let better = if increase { p > oprio } else { p < oprio };
+            if better {
+                if g.model {
+                    assert!(r == Some(oprio), "RET: a strictly better offer returns the old priority");
+                }
+                want.set(k, opay, p);
+            } else {
+                if g.model {
+                    assert!(r == Some(p), "RET: an offer that is not better is handed back");
+                }
+                if g.model || g.st {
+                    assert_tables_unchanged(&q, &gh);
+                }
+            }
+            cover!(better, "offer strictly better");
+            cover!(p == oprio, "offer equal");
+            cover!(!better && p != oprio, "offer worse");
+        }
+    }
+    post(&mut q, &want, g);
+    cover!(old.is_none(), "absent item inserted");
+}
+
+pub fn push_increase<T: Q, const N: usize>(pre: Pre, tables: Tables, g: Grp) {
+    push_dir::<T, N>(pre, tables, g, true)
+}
+pub fn push_decrease<T: Q, const N: usize>(pre: Pre, tables: Tables, g: Grp) {
+    push_dir::<T, N>(pre, tables, g, false)
+}
+
+// ------------------------------------------------------------------------------------
+// change_priority through the owned form of the key, carrying a different payload (C12)
+// ------------------------------------------------------------------------------------
+pub fn change_priority_item<T: Q, const N: usize>(pre: Pre, tables: Tables, g: Grp) {
+    let (mut q, _gh, mut want) = pre_state::<T, N>(pre, tables);
+    let k = sym::below(KEYS);
+    let pay = sym::u8();
+    let p = sym::u8();
+    let old = want.get(k);
+    // the borrowed and the owned form of the key address the same element
+    let a = q.get(&k).map(|(i, p)| (i.key, i.pay, p.0));
+    let b = q.get_item(&Item::new(k, pay)).map(|(i, p)| (i.key, i.pay, p.0));
+    assert!(a == b, "KEY: borrowed and owned lookup keys address the same element");
+    let r = q.change_priority_item(&Item::new(k, pay), Pr(p));
+    if g.model {
+        assert!(
+            r.map(|x| x.0) == old.map(|x| x.1),
+            "RET: change_priority returns the old priority or None"
+        );
+    }
+    if let Some((opay, _)) = old {
+        // the stored item value is the one first inserted, not the lookup key's
+        want.set(k, opay, p);
+        cover!(opay != pay, "lookup key carries a different payload");
+    }
+    post(&mut q, &want, g);
+}
+
+// ------------------------------------------------------------------------------------
+// pop_if family
+// ------------------------------------------------------------------------------------
+pub fn pop_if<T: Q, const N: usize>(pre: Pre, tables: Tables, g: Grp, hi: bool) {
+    let (mut q, _gh, mut want) = pre_state::<T, N>(pre, tables);
+    let peeked = if hi { q.peek_hi() } else { q.peek_lo() }.map(|(i, p)| (i.key, i.pay, p.0));
+    let verdict = sym::bool();
+    let w = sym::u8();
+    let wpay = sym::u8();
+    let mut calls = 0u8;
+    let mut seen = None;
+    let f = |i: &mut Item, p: &mut Pr| {
+        calls += 1;
+        seen = Some((i.key, i.pay, p.0));
+        p.0 = w;
+        i.pay = wpay;
+        verdict
+    };
+    let r = if hi { q.pop_hi_if(f) } else { q.pop_lo_if(f) }.map(|(i, p)| (i.key, i.pay, p.0));
+    if g.ord || g.model {
+        assert!(calls == if N > 0 { 1 } else { 0 }, "CB: predicate called once iff non-empty");
+        assert!(seen == peeked, "CB: predicate is shown the element peek reported");
+    }
+    if let Some((k, _, _)) = peeked {
+        if verdict {
+            if g.model || g.ord {
+                assert!(r == Some((k, wpay, w)), "RET: pop_if returns the element with what the predicate wrote");
+            }
+            want.del(k);
+        } else {
+            if g.model || g.ord {
+                assert!(r.is_none(), "RET: pop_if returns None when the predicate declines");
+            }
+            want.set(k, wpay, w);
+        }
+    } else if g.model || g.ord {
+        assert!(r.is_none(), "RET: pop_if on an empty queue is None");
+    }
+    post(&mut q, &want, g);
+    cover!(verdict, "predicate accepts");
+    cover!(!verdict, "predicate declines");
+}
+
+pub fn pop_hi_if<T: Q, const N: usize>(pre: Pre, tables: Tables, g: Grp) {
+    pop_if::<T, N>(pre, tables, g, true)
+}
+pub fn pop_lo_if<T: Q, const N: usize>(pre: Pre, tables: Tables, g: Grp) {
+    pop_if::<T, N>(pre, tables, g, false)
+}
+
+// ------------------------------------------------------------------------------------
+// peek_mut family: addresses the peeked element; payload written through it persists
+// ------------------------------------------------------------------------------------
+pub fn peek_mut<T: Q, const N: usize>(pre: Pre, tables: Tables, g: Grp, hi: bool) {
+    let (mut q, gh, mut want) = pre_state::<T, N>(pre, tables);
+    let peeked = if hi { q.peek_hi() } else { q.peek_lo() }.map(|(i, p)| (i.key, i.pay, p.0));
+    let wpay = sym::u8();
+    let got = {
+        let m = if hi { q.peek_hi_mut() } else { q.peek_lo_mut() };
+        match m {
+            None => None,
+            Some((i, p)) => {
+                let v = (i.key, i.pay, p.0);
+                i.pay = wpay;
+                Some(v)
+            }
+        }
+    };
+    assert!(got == peeked, "RET: peek_mut addresses the element peek reported");
+    if let Some((k, _, prio)) = peeked {
+        want.set(k, wpay, prio);
+    }
+    if g.st || g.model {
+        // nothing but the payload changed
+        let mut s = 0;
+        while s < N {
+            assert!(q.s_heap(s) == Some(gh.heap[s]), "SAME: heap table unchanged");
+            assert!(q.s_qp(s) == Some(gh.qp[s]), "SAME: qp table unchanged");
+            s += 1;
+        }
+    }
+    post(&mut q, &want, g);
+}
+
+pub fn peek_hi_mut<T: Q, const N: usize>(pre: Pre, tables: Tables, g: Grp) {
+    peek_mut::<T, N>(pre, tables, g, true)
+}
+pub fn peek_lo_mut<T: Q, const N: usize>(pre: Pre, tables: Tables, g: Grp) {
+    peek_mut::<T, N>(pre, tables, g, false)
+}
+
+// ------------------------------------------------------------------------------------
+// get_mut: payload written through it persists, nothing else moves
+// ------------------------------------------------------------------------------------
+pub fn get_mut<T: Q, const N: usize>(pre: Pre, tables: Tables, g: Grp) {
+    let (mut q, gh, mut want) = pre_state::<T, N>(pre, tables);
+    let k = sym::below(KEYS);
+    let wpay = sym::u8();
+    let old = want.get(k);
+    let got = match q.get_mut(&k) {
+        None => None,
+        Some((i, p)) => {
+            let v = (i.pay, p.0);
+            i.pay = wpay;
+            Some(v)
+        }
+    };
+    assert!(got == old, "RET: get_mut returns the stored pair or None");
+    if let Some((_, prio)) = old {
+        want.set(k, wpay, prio);
+    }
+    let mut s = 0;
+    while s < N {
+        assert!(q.s_heap(s) == Some(gh.heap[s]), "SAME: heap table unchanged");
+        assert!(q.s_qp(s) == Some(gh.qp[s]), "SAME: qp table unchanged");
+        s += 1;
+    }
+    post(&mut q, &want, g);
+    cover!(old.is_some(), "present item");
+}
+
+// ------------------------------------------------------------------------------------
+// retain / retain_mut
+//
+// The verdicts of the predicate are concrete per instance (`PAT`, bit i = verdict of the
+// i-th call): a symbolic survivor count makes `Store::retain_mut` allocate tables of
+// symbolic length, which CBMC cannot bit-blast (DESIGN.md §3.3). Everything else -- which
+// elements sit in which slot, their priorities, what the predicate writes -- is symbolic,
+// and the instances enumerate the patterns.
+// ------------------------------------------------------------------------------------
+pub fn retain<T: Q, const N: usize, const PAT: u32>(pre: Pre, tables: Tables, g: Grp, mutable: bool) {
+    let (mut q, gh, want0) = pre_state::<T, N>(pre, tables);
+    // what the predicate writes, by call index
+    let mut rew = [0u8; N];
+    let mut rpay = [0u8; N];
+    if mutable {
+        let mut s = 0;
+        while s < N {
+            rew[s] = sym::u8();
+            rpay[s] = sym::u8();
+            s += 1;
+        }
+    }
+    let mut idx = 0usize;
+    let mut seen: u16 = 0;
+    let mut bad_view = false;
+    let mut want = Tab::empty();
+    if mutable {
+        q.retain_mut(|i, p| {
+            bad_view |= want0.get(i.key & 15) != Some((i.pay, p.0)) || seen & (1u16 << (i.key & 15)) != 0;
+            seen |= 1u16 << (i.key & 15);
+            let c = if idx < N { idx } else { 0 };
+            p.0 = rew[c];
+            i.pay = rpay[c];
+            let keep = PAT & (1u32 << c) != 0;
+            if keep {
+                want.set(i.key & 15, rpay[c], rew[c]);
+            }
+            idx += 1;
+            keep
+        });
+    } else {
+        q.retain(|i, p| {
+            bad_view |= want0.get(i.key & 15) != Some((i.pay, p.0)) || seen & (1u16 << (i.key & 15)) != 0;
+            seen |= 1u16 << (i.key & 15);
+            let c = if idx < N { idx } else { 0 };
+            let keep = PAT & (1u32 << c) != 0;
+            if keep {
+                want.set(i.key & 15, i.pay, p.0);
+            }
+            idx += 1;
+            keep
+        });
+    }
+    if g.model || g.ord {
+        assert!(idx == N, "CB: predicate called exactly once per stored element");
+        assert!(!bad_view, "CB: predicate is shown each stored element once");
+        assert!(seen == want0.mask, "CB: predicate has seen every stored element");
+    }
+    let _ = gh;
+    post(&mut q, &want, g);
+}
+
+pub fn retain_imm<T: Q, const N: usize, const PAT: u32>(pre: Pre, tables: Tables, g: Grp) {
+    retain::<T, N, PAT>(pre, tables, g, false)
+}
+pub fn retain_mut<T: Q, const N: usize, const PAT: u32>(pre: Pre, tables: Tables, g: Grp) {
+    retain::<T, N, PAT>(pre, tables, g, true)
+}
+
+// ------------------------------------------------------------------------------------
+// clear
+// ------------------------------------------------------------------------------------
+pub fn clear<T: Q, const N: usize>(pre: Pre, tables: Tables, g: Grp) {
+    let (mut q, _gh, _want) = pre_state::<T, N>(pre, tables);
+    q.clear();
+    let want = Tab::empty();
+    assert!(q.peek_hi().is_none(), "EMPTY: peek is None after clear");
+    post(&mut q, &want, g);
+    // behaves like a fresh queue
+    let k = sym::below(KEYS);
+    let p = sym::u8();
+    let r = q.push(Item::new(k, 0), Pr(p));
+    assert!(r.is_none(), "EMPTY: first push after clear inserts");
+    let mut want = Tab::empty();
+    want.set(k, 0, p);
+    post(&mut q, &want, g);
+    assert!(q.pop_hi().map(|(i, p)| (i.key, p.0)) == Some((k, p)), "EMPTY: refilled queue pops what was pushed");
+    assert!(q.pop_hi().is_none(), "EMPTY: and is empty again");
+}
